@@ -19,15 +19,15 @@ for f in sorted(glob.glob(os.path.join(VERIF, "rules", "C*.py"))):
     if cs:
         out.append("*Perturbation controls (every run):* " + "; ".join(f"{c[0]} → {c[1]}" for c in cs) + "\n")
 out.append("### 8.6 Seeded changes and which checks report them (generated from seeded/*/detection.json)\n")
-out.append("| seed | property | what the change needs to manifest | checks that report it | rules |")
-out.append("|---|---|---|---|---|")
+out.append("| seed | property | what the change needs to manifest | checks that report it | own | rules |")
+out.append("|---|---|---|---|---|---|")
 for d in sorted(glob.glob(os.path.join(VERIF, "seeded", "*", "meta.json"))):
     meta = json.load(open(d))
     det_f = os.path.join(os.path.dirname(d), "detection.json")
     det = json.load(open(det_f)) if os.path.exists(det_f) else {"reported_by": {}}
     rules = sorted({l.split()[1] for ls in det["reported_by"].values() for l in ls if l.split()[0] in ("RULE", "ANCHOR")})
     need = (meta.get("needs_to_manifest") or "").replace("|", "/").replace("\n", " ")
-    out.append(f"| {meta['id']} | {meta['property']} | {need[:150]}{'…' if len(need) > 150 else ''} | {', '.join(sorted(det['reported_by'])) or '**none**'} | {', '.join(rules) or '—'} |")
+    out.append(f"| {meta['id']} | {meta['property']} | {need[:150]}{'…' if len(need) > 150 else ''} | {', '.join(sorted(det['reported_by'])) or '**none**'} | {'yes' if meta['property'] in det['reported_by'] else ('—' if not det['reported_by'] else 'no')} | {', '.join(rules[:8]) or '—'} |")
 out.append("")
 out.append("### 8.7 Behaviour-preserving edits (generated from refactors/*/detection.json): every check must stay silent\n")
 rows, loud = [], []
